@@ -8,7 +8,7 @@ if HERE not in sys.path:
     sys.path.insert(0, HERE)
 
 from engine import step, report, loader   # noqa: E402
-from engine.universe import FIVE          # noqa: E402
+from engine.universe import FIVE, C_ONE, C_MULTI, D_ONE, D_MULTI, D_MULTI15          # noqa: E402
 
 ALGOS12 = ["md5", "sha1", "sha256", "sha384", "sha512", "sha224", "sha3_224", "sha3_256", "sha3_384", "sha3_512",
            "blake2b", "blake2s"]
@@ -25,12 +25,18 @@ API_FUNCS = ["FileHashStore.store_object", "FileHashStore.tag_object", "FileHash
              "FileHashStore._delete", "Stream.__iter__", "Stream.close"]
 
 
+# identifiers of the shared universe: one is a proper prefix of another, "b" is a suffix of it, pid+format coincides
+# for (P_A, "bc") and (P_AB, "c"), and two of them are not ASCII (their length in bytes differs from their length in
+# characters); P_UP is the upper-case spelling of P_A
+P_A, P_AB, P_UP = "\u00e9", "\u00e9b", "\u00c9"
+
+
 def universe(tier, formats=True, algorithm="SHA-256"):
     if tier == "thorough":
-        a = dict(pids=["a", "ab", "b", "A"], contents=[b"x", b"0123456789ab", b"01234"],
+        a = dict(pids=[P_A, P_AB, "b", P_UP], contents=[C_ONE, C_MULTI, b"01234"],
                  formats=[None, "ns", "c", "bc", ""] if formats else [None], algorithm=algorithm)
     else:
-        a = dict(pids=["a", "ab", "b"], contents=[b"x", b"0123456789ab"],
+        a = dict(pids=[P_A, P_AB, "b"], contents=[C_ONE, C_MULTI],
                  formats=[None, "ns", "c", "bc"] if formats else [None], algorithm=algorithm)
     return a
 
@@ -55,6 +61,11 @@ def object_menu(w, with_invalid=True, with_reads=True):
             m.append(step.DeleteIfInvalid(k, good[:-1] + ("0" if good[-1] != "0" else "1"), "sha256", len(c), True,
                                           ", wrong checksum"))
             m.append(step.DeleteIfInvalid(k, good, "sha256", len(c), False, ", correct"))
+            # an algorithm outside the store's default list: the digest is recomputed from the stored object
+            g224 = hashlib.sha224(c).hexdigest()
+            m.append(step.DeleteIfInvalid(k, g224, "SHA-224", len(c), False, ", correct, non-default algorithm"))
+            m.append(step.DeleteIfInvalid(k, ("0" if g224[0] != "0" else "1") + g224[1:], "sha224", len(c), True,
+                                          ", wrong checksum, non-default algorithm"))
         for i in range(w.NP):
             for k in range(w.NK):
                 c = w.contents[k]
@@ -88,7 +99,7 @@ def signature(rec, clause):
     return "%s :: %s :: result=%s :: pre-state: %s" % (rec["roles"], clause, rec["res"], rec.get("relation"))
 
 
-def collect(run, results, mine, w_args, menu_fn, ignore=()):
+def collect(run, results, mine, w_args, menu_fn, ignore=(), part=None):
     """Fold explore_steps() output into a report.Run.  mine: set of clause names that belong to this property."""
     from engine import battery
     battery.validate(run)
@@ -112,7 +123,7 @@ def collect(run, results, mine, w_args, menu_fn, ignore=()):
                 run.fail(sig, dict(call=r["call"], result=r["res"], error=r["err"], failing=r["bad"],
                                    pre_state=r.get("vals")),
                          dict(harness="step", vals=r.get("vals"), clauses=sorted(set(b[0] for b in failed)),
-                              call=r["call"]))
+                              call=r["call"], part=part))
 
 
 def make_replayer(w_args, menu_fn, kernels_fn=None):
@@ -124,3 +135,16 @@ def make_replayer(w_args, menu_fn, kernels_fn=None):
             return step.alias_native(payload["what"])
         return step.replay_native(w_args, menu_fn, payload["vals"], payload["clauses"])
     return replay
+
+
+def make_multi_replayer(parts, kernels_fn=None):
+    """parts: name -> (w_args, menu_fn); a payload names the part it came from (collect(..., part=name))"""
+    def replay(payload):
+        w_args, menu_fn = parts[payload.get("part") or "main"]
+        return make_replayer(w_args, menu_fn, kernels_fn)(payload)
+    return replay
+
+
+def big_bytes(n, tail=b""):
+    """n bytes of every value (CR, LF, NUL and non-UTF-8 sequences included) ending in `tail`"""
+    return bytes((i * 7 + i // 251) % 256 for i in range(n - len(tail))) + tail
